@@ -46,11 +46,11 @@ macro_rules! rfrag {
 rfrag!(rfrag_u32, u32, 0, 16, 8);
 // @h rfrag_opt_u16 props=C14 tier=quick kind=complete vars="v:Option<u16>, plan[3], failure position" fns="impls/prim.rs:Option"
 rfrag!(rfrag_opt_u16, Option<u16>, 0, 16, 8);
-// @h rfrag_arr_opt_2 props=C14 tier=quick kind=complete vars="v:[Option<u8>;2], plan[3], failure position" fns="impls/array.rs:DeserializeHelper<Deep>::_deserialize_full_inner_impl"
+// @h rfrag_arr_opt_2 props=C14 tier=thorough kind=complete vars="v:[Option<u8>;2], plan[3], failure position" fns="impls/array.rs:DeserializeHelper<Deep>::_deserialize_full_inner_impl"
 rfrag!(rfrag_arr_opt_2, [Option<u8>; 2], 0, 16, 8);
 // @h rfrag_arr_u16_3 props=C14 tier=quick kind=complete vars="v:[u16;3], plan[3], failure position" fns="impls/array.rs:DeserializeHelper<Zero>::_deserialize_full_inner_impl"
 rfrag!(rfrag_arr_u16_3, [u16; 3], 0, 16, 10);
-// @h rfrag_vec_u16 props=C14 tier=quick kind=bounded bound="len<=2" vars="v:Vec<u16>, plan[3], failure position" fns="deser/helpers.rs:deserialize_full_vec_zero"
+// @h rfrag_vec_u16 props=C14 tier=thorough kind=bounded bound="len<=2" vars="v:Vec<u16>, plan[3], failure position" fns="deser/helpers.rs:deserialize_full_vec_zero"
 rfrag!(rfrag_vec_u16, Vec<u16>, 2, 32, 12);
 // @h rfrag_vec_opt_u8 props=C14 tier=thorough kind=bounded bound="len<=2" vars="v:Vec<Option<u8>>, plan[3], failure position" fns="deser/helpers.rs:deserialize_full_vec_deep"
 rfrag!(rfrag_vec_opt_u8, Vec<Option<u8>>, 2, 32, 12);
@@ -58,3 +58,37 @@ rfrag!(rfrag_vec_opt_u8, Vec<Option<u8>>, 2, 32, 12);
 rfrag!(rfrag_dt, DT, 0, 16, 8);
 // @h rfrag_vec_string props=C14 tier=thorough kind=bounded bound="outer<=2, inner<=1 ASCII" vars="v:Vec<String> (heap-owning items dropped on failure), plan[3], failure position" fns="deser/helpers.rs:deserialize_full_vec_deep,impls/string.rs"
 rfrag!(rfrag_vec_string, Vec<String>, 2, 48, 12);
+
+/// deep vector whose elements own heap memory: on a reader failure the
+/// partially built vector is dropped (CBMC flags frees of uninitialised or
+/// already freed memory). Cheaper than `rfrag`: the reader fails at a symbolic
+/// position but does not fragment.
+// @h rfail_vec_vec_u8 props=C14 tier=quick kind=bounded bound="outer len<=2, inner len<=1" vars="v:Vec<Vec<u8>>, failure position (any)" fns="deser/helpers.rs:deserialize_full_vec_deep,deser/helpers.rs:deserialize_full_vec_zero"
+#[kani::proof]
+#[kani::unwind(5)]
+pub fn rfail_vec_vec_u8() {
+    let n_outer: usize = kani::any();
+    kani::assume(n_outer <= 2);
+    let mut v: Vec<Vec<u8>> = Vec::with_capacity(2);
+    let mut i = 0;
+    while i < n_outer {
+        v.push(<Vec<u8>>::sym(1));
+        i += 1;
+    }
+    let mut sink = ArrSink::<48>::new();
+    let (r, _) = ser_at(&v, 0, &mut sink);
+    assert!(r.is_ok(), "[C01/ser.ok] serialization into an infallible sink succeeds");
+    let n = sink.len;
+    let fail_at: usize = kani::any();
+    let mut src = FailingReader { data: &sink.buf[..n], off: 0, fail_at };
+    let mut rd = ReaderWithPos::new(&mut src);
+    match <Vec<Vec<u8>>>::_deserialize_full_inner(&mut rd) {
+        Ok(d) => {
+            assert!(fail_at >= n, "[C14/fail.never_ok] a reader that fails before the end never yields a value");
+            assert!(d.keq(&v), "[C14/frag.value] the value is the original");
+        }
+        Err(deser::Error::ReadError) => assert!(fail_at < n, "[C14/frag.ok] without a reader failure deserialization succeeds"),
+        Err(e) => { core::mem::forget(e); assert!(false, "[C14/fail.kind] a reader failure is reported as a read error") }
+    };
+    kani::cover!(fail_at < n && fail_at > 8, "[cover] failure after the length word reached");
+}
